@@ -24,41 +24,45 @@ N3 == {<<>>, <<0>>, <<1>>}
 N4 == {<<>>, <<0>>, <<1>>, <<0, 2>>}
 R4 == {<<>>, <<0>>, <<1>>, <<0, 1>>}
 
-(* ---- quick (about 150 versions) ---- *)
+(* ---- quick (about 100 versions) ---- *)
 QNums   == VSeqsUpTo(C9, 1, 1)
-           \cup {<<f, c>> : f \in {<<1>>, <<0, 1>>}, c \in C9}
-           \cup {<<<<1>>, a, b>> : a \in {<<0>>, <<1>>}, b \in C3}
+           \cup {<<<<1>>, c>> : c \in C9}
+           \cup {<<<<0, 1>>, c>> : c \in C3}
+           \cup {<<<<1>>, <<0>>, c>> : c \in C3}
 QSufs1  == VSeqsUpTo(VSuf(AllK, N3), 0, 1)
 QSufs2  == VSeqsUpTo(VSuf({"alpha", "p"}, {<<>>, <<1>>}), 2, 2)
 VersQuick ==
          VProd(QNums, {0}, VNone, VNone)
-    \cup VProd({<<<<1>>>>, <<<<1>>, <<0>>>>}, {0, 1, 2}, VNone, {<<>>, <<0>>, <<1>>})
-    \cup VProd({<<<<1>>>>}, {0}, QSufs1 \cup QSufs2, {<<>>, <<1>>})
-    \cup VProd({<<<<1>>>>, <<<<1>>, <<0, 1>>>>}, {0, 1}, VSeqsUpTo(VSuf({"rc", "p"}, {<<>>, <<1>>}), 0, 1), {<<>>, <<0, 1>>})
+    \cup VProd({<<<<1>>>>}, {0, 1, 2}, VNone, {<<>>, <<0>>, <<1>>})
+    \cup VProd({<<<<1>>, <<0>>>>}, {0, 1}, VNone, VNone)
+    \cup VProd({<<<<1>>>>}, {0}, QSufs1, {<<>>, <<1>>})
+    \cup VProd({<<<<1>>>>}, {0}, QSufs2, VNone)
+    \cup VProd({<<<<1>>>>, <<<<1>>, <<0, 1>>>>}, {0, 1},
+               {<<>>, <<[k |-> "rc", n |-> <<>>]>>, <<[k |-> "p", n |-> <<1>>]>>}, {<<>>, <<0, 1>>})
 
-(* ---- thorough, triples (about 400 versions) ---- *)
+(* ---- thorough, triples (about 300 versions) ---- *)
 TNums   == VSeqsUpTo(C9, 1, 2)
            \cup {<<f, a, b>> : f \in {<<1>>}, a \in C5, b \in C3}
 TSufs   == VSeqsUpTo(VSuf(AllK, N3), 0, 1)
-           \cup VSeqsUpTo(VSuf({"alpha", "rc", "p"}, {<<>>, <<1>>}), 2, 2)
+           \cup VSeqsUpTo(VSuf({"alpha", "p"}, {<<>>, <<1>>}), 2, 2)
            \cup {<<s, s, s>> : s \in VSuf({"alpha", "p"}, {<<>>})}
 VersThorough ==
          VProd(TNums, {0}, VNone, VNone)
-    \cup VProd({<<<<1>>>>, <<<<1>>, <<0>>>>, <<<<1>>, <<0, 0>>>>}, {0, 1, 2, 26}, VNone, R4)
+    \cup VProd({<<<<1>>>>, <<<<1>>, <<0>>>>}, {0, 1, 2, 26}, VNone, R4)
     \cup VProd({<<<<1>>>>}, {0}, TSufs, {<<>>, <<1>>})
-    \cup VProd({<<<<1>>>>, <<<<0, 1>>>>, <<<<1>>, <<0, 1>>>>, <<<<1>>, <<1, 0>>>>}, {0, 1},
-               VSeqsUpTo(VSuf({"alpha", "rc", "p"}, {<<>>, <<1>>}), 0, 1), {<<>>, <<0>>, <<0, 1>>})
+    \cup VProd({<<<<1>>>>, <<<<0, 1>>>>, <<<<1>>, <<0, 1>>>>}, {0, 1},
+               VSeqsUpTo(VSuf({"rc", "p"}, {<<>>, <<1>>}), 0, 1), {<<>>, <<0>>, <<0, 1>>})
 
-(* ---- thorough, pairs replayed into the code (about 900 versions) ---- *)
+(* ---- thorough, pairs replayed into the code (about 500 versions) ---- *)
 PNums   == VSeqsUpTo(C9, 1, 2)
            \cup {<<f, a, b>> : f \in {<<1>>, <<0, 1>>}, a \in C5, b \in C5}
 PSufs   == VSeqsUpTo(VSuf(AllK, N4), 0, 1)
-           \cup VSeqsUpTo(VSuf(AllK, {<<>>, <<1>>}), 2, 2)
+           \cup VSeqsUpTo(VSuf({"alpha", "rc", "p"}, {<<>>, <<1>>}), 2, 2)
            \cup {<<s, s, s>> : s \in VSuf(AllK, {<<>>})}
 VersPairs ==
          VProd(PNums, {0}, VNone, VNone)
     \cup VProd({<<<<1>>>>, <<<<1>>, <<0>>>>, <<<<1>>, <<0, 0>>>>, <<<<1, 0>>>>}, {0, 1, 2, 26}, VNone, R4)
     \cup VProd({<<<<1>>>>}, {0}, PSufs, {<<>>, <<1>>})
-    \cup VProd({<<<<1>>>>, <<<<0, 1>>>>, <<<<0, 1, 0>>>>, <<<<1>>, <<0, 1>>>>, <<<<1>>, <<1, 0>>>>, <<<<1>>, <<0, 1, 0>>>>}, {0, 1, 2},
-               VSeqsUpTo(VSuf({"alpha", "pre", "rc", "p"}, {<<>>, <<1>>}), 0, 1), {<<>>, <<0>>, <<0, 1>>})
+    \cup VProd({<<<<1>>>>, <<<<0, 1>>>>, <<<<1>>, <<0, 1>>>>, <<<<1>>, <<0, 1, 0>>>>}, {0, 1},
+               VSeqsUpTo(VSuf({"alpha", "rc", "p"}, {<<>>, <<1>>}), 0, 1), {<<>>, <<0>>, <<0, 1>>})
 =============================================================================
